@@ -197,3 +197,24 @@ Example C02_resolve_without_base_refuted :
   let f := access_mem (LStrided [1] 5) 8 [[4; 1]] [0] in
   linear_on_box f [4; 4] /\ resolve_base f 2 = 40 /\ dot (resolve f 2) [1; 1] <> f [1; 1].
 Proof. exact resolve_without_base_refuted. Qed.
+
+(* 8. The Safe class `linear_on_box` is decidable: checking the unit-response coefficients on every point of
+      the box is sound AND complete, so the class used by the harness classifier (L1 group `linb`) and the
+      hypothesis of the theorems coincide; concrete layouts are discharged by computation. *)
+From Snax Require Import Model.C02Check.
+Theorem C02_linear_on_box_decidable :
+  forall f bounds, linear_on_boxb f bounds = true <-> linear_on_box f bounds.
+Proof. intros f bounds. split; [apply linear_on_boxb_sound | apply linear_on_boxb_complete]. Qed.
+Print Assumptions C02_linear_on_box_decidable.
+
+(* the gemmx A operand (i8, 16x16, 8x8 tiles stored contiguously) under the 6-dim matmul schedule
+   (m, n, k, 8, 8, 8): a two-dimensional tiled layout aligned with the schedule is linear on the box *)
+Example C02_gemmx_tiled_operand_linear :
+  linear_on_box (access_mem (LTsl [[(128, 2); (8, 8)]; [(64, 2); (1, 8)]]) 1
+                            [[8; 0; 0; 1; 0; 0]; [0; 0; 8; 0; 0; 1]] [0; 0]) [2; 2; 2; 8; 8; 8].
+Proof. apply linear_on_boxb_sound. vm_compute. reflexivity. Qed.
+
+(* known finding F22 (class not_linear_on_box): a tiling that is not the schedule's tiling is not linear *)
+Example C02_misaligned_tiling_refuted :
+  ~ linear_on_box (access_mem (LTsl [[(16, 2); (1, 8)]]) 8 [[4; 1]] [0]) [4; 4].
+Proof. intros H. apply linear_on_boxb_complete in H. vm_compute in H. discriminate H. Qed.
